@@ -218,6 +218,17 @@ class Program:
             if not m.is_test:
                 self._index_defs(m)
 
+    _known = None
+
+    def is_known(self, qual: str) -> bool:
+        """Was this function part of the tree the rules were written against?  Functions that are *not* (helpers a later
+        refactoring extracted) are seen through: value-flow terms and the loop explorer inline them."""
+        if Program._known is None:
+            path = os.path.join(os.path.dirname(os.path.abspath(__file__)), "known_functions.txt")
+            with open(path) as fh:
+                Program._known = {l.strip() for l in fh if l.strip()}
+        return qual in Program._known
+
     def digest(self) -> str:
         h = hashlib.sha256()
         for name in sorted(self.modules):
@@ -440,6 +451,19 @@ class Program:
                 return k.methods[name]
         return None
 
+    def attr_store_names(self) -> set:
+        """Names ever assigned through an attribute target (`x.name = ...`, augmented, deleted, setattr is ignored) in the package."""
+        if getattr(self, "_attr_stores", None) is None:
+            out = set()
+            for m in self.modules.values():
+                if m.is_test:
+                    continue
+                for n in ast.walk(m.tree):
+                    if isinstance(n, ast.Attribute) and isinstance(n.ctx, (ast.Store, ast.Del)):
+                        out.add(n.attr)
+            self._attr_stores = out
+        return self._attr_stores
+
     def lookup_class_attr(self, c: ClassInfo, name: str) -> Optional[Tuple[ClassInfo, ast.expr]]:
         for k in self.mro(c):
             if name in k.attrs:
@@ -510,6 +534,12 @@ class Program:
             r = self.resolve_name(m, e.id, cls)
             return self._fold_entity(r, depth)
         if isinstance(e, ast.Attribute):
+            if isinstance(e.value, ast.Name) and e.value.id in ("self", "cls") and cls is not None and not (local and e.value.id in local):
+                # self.X / cls.X for a class-level constant X that no code in the package ever stores through an attribute
+                a = self.lookup_class_attr(cls, e.attr)
+                if a is not None and e.attr not in self.attr_store_names() and not any(
+                        k is not a[0] and e.attr in k.attrs and a[0] in self.mro(k) for k in self.classes.values()):
+                    return self.fold(a[1], a[0].module, a[0], None, depth + 1)
             r = self.resolve_expr(m, e, cls)
             if r is not None and not isinstance(r, External):
                 return self._fold_entity(r, depth)
